@@ -44,26 +44,29 @@ theorem scanM_spec_body : ∀ (s : Str) (k : Nat) (acc : Str) (toks : List Tok),
         obtain ⟨rest, hr⟩ := ih _ _ _ h
         exact ⟨rest, by rw [hr]; simp [specialBody, hc, hc2]⟩
 
-theorem tokCaseOf_skip {t : Str} {l : Nat} {r : List Tok}
-    (h0 : ¬ (l = 0 ∧ t ≠ [] ∧ t.all isAlphaN = true)) (h1 : ¬ (l = 1 ∧ startsWithBackslash t = true)) :
-    tokCaseOf ((t, l) :: r) = tokCaseOf r := by
-  simp only [tokCaseOf, h0, h1, if_false]
+theorem tokCaseFrom_skip {b : Bool} {t : Str} {l : Nat} {r : List Tok}
+    (h0 : ¬ (l = 0 ∧ t ≠ [] ∧ t.all isAlphaN = true))
+    (h1 : ¬ (l = 1 ∧ startsWithBackslash t = true ∧ b = true)) :
+    tokCaseFrom b ((t, l) :: r) = tokCaseFrom (decide (t = ['{'] ∧ l = 1)) r := by
+  simp only [tokCaseFrom, h0, h1, if_false]
 
 theorem brace_not_alpha : isAlphaN '{' = false ∧ isAlphaN '}' = false :=
   ⟨(structural_no_class (by decide)).1, (structural_no_class (by decide)).1⟩
 
-/-- **The scanner's case rule is bibtex.web's rule** as long as no backslash stands at brace level 1
-of an ordinary group before the case is decided. -/
-theorem tokCaseOf_scanM_norm : ∀ (s : Str) (d : Nat) (toks : List Tok),
-    scanM (.norm d) s = some toks → plainGroups d s = true → tokCaseOf toks = caseBibtex d s := by
+/-- **The scanner's case rule (after the repair C04-3) is bibtex.web's rule.**  `b` = the previous
+token is the brace that opened a group at level 0; in normal mode the scanner is then NOT in front
+of a backslash (it would have entered a special character). -/
+theorem tokCaseFrom_scanM_norm : ∀ (s : Str) (d : Nat) (toks : List Tok) (b : Bool),
+    scanM (.norm d) s = some toks → (b = true → s.head? ≠ some '\\') →
+    tokCaseFrom b toks = caseBibtex d s := by
   intro s
   induction s with
   | nil =>
-    intro d toks h _
+    intro d toks b h _
     simp only [scanM, Option.some.injEq] at h
     subst h; rfl
   | cons c r ih =>
-    intro d toks h hp
+    intro d toks b h hb
     simp only [scanM] at h
     by_cases hc : c = '{'
     · subst hc
@@ -73,7 +76,7 @@ theorem tokCaseOf_scanM_norm : ∀ (s : Str) (d : Nat) (toks : List Tok),
         simp only [hsp, and_self, if_true, Option.map_eq_some_iff] at h
         obtain ⟨t, ht, rfl⟩ := h
         obtain ⟨rest, hr⟩ := scanM_spec_body r 1 [] t ht
-        rw [tokCaseOf_skip (by simp) (by simp [startsWithBackslash]), hr]
+        rw [tokCaseFrom_skip (by simp) (by simp [startsWithBackslash]), hr]
         have hbs : startsWithBackslash (specialBody 1 r) = true := by
           obtain ⟨_, hh⟩ := hsp
           cases r with
@@ -82,61 +85,116 @@ theorem tokCaseOf_scanM_norm : ∀ (s : Str) (d : Nat) (toks : List Tok),
             simp only [List.head?_cons, Option.some.injEq] at hh
             subst hh
             simp [specialBody, startsWithBackslash]
-        simp only [List.nil_append, tokCaseOf, caseBibtex, hsp, and_self, if_true, hbs]
+        simp only [List.nil_append, tokCaseFrom, caseBibtex, hsp, and_self, if_true, hbs, decide_true]
         simp
       · simp only [hsp, if_false] at h
         split at h
         · cases h
         · simp only [Option.map_eq_some_iff] at h
           obtain ⟨t, ht, rfl⟩ := h
-          simp only [plainGroups, if_true, hsp, if_false] at hp
-          rw [tokCaseOf_skip (by simp) (by simp [startsWithBackslash])]
+          rw [tokCaseFrom_skip (by simp) (by simp [startsWithBackslash])]
           simp only [caseBibtex, if_true, hsp, if_false]
-          exact ih _ _ ht hp
+          apply ih _ _ _ ht
+          intro hflag hh
+          simp only [true_and, decide_eq_true_eq] at hflag
+          exact hsp ⟨by omega, hh⟩
     · simp only [hc, if_false] at h
       by_cases hc2 : c = '}'
       · subst hc2
-        simp only [plainGroups, hc, if_false, if_true] at hp
         simp only [caseBibtex, hc, if_false, if_true]
+        have hflag : decide (['}'] = ['{'] ∧ (d - 1) = 1) = false := by simp
         by_cases hd : d > 0
         · simp only [hd, and_self, if_true, Option.map_eq_some_iff] at h
           obtain ⟨t, ht, rfl⟩ := h
-          rw [tokCaseOf_skip (by simp [brace_not_alpha.2]) (by simp [startsWithBackslash])]
-          exact ih _ _ ht hp
+          rw [tokCaseFrom_skip (by simp [brace_not_alpha.2]) (by simp [startsWithBackslash]), hflag]
+          exact ih _ _ _ ht (by simp)
         · have hd0 : d = 0 := by omega
           subst hd0
           simp only [Nat.lt_irrefl, and_false, if_false, Option.map_eq_some_iff] at h
           obtain ⟨t, ht, rfl⟩ := h
-          rw [tokCaseOf_skip (by simp [brace_not_alpha.2]) (by simp)]
-          exact ih _ _ ht hp
+          rw [tokCaseFrom_skip (by simp [brace_not_alpha.2]) (by simp)]
+          have : decide (['}'] = ['{'] ∧ (0 : Nat) = 1) = false := by simp
+          rw [this]
+          exact ih _ _ _ ht (by simp)
       · have hnb : ¬ (c = '}' ∧ d > 0) := fun hh => hc2 hh.1
         simp only [hnb, if_false, Option.map_eq_some_iff] at h
         obtain ⟨t, ht, rfl⟩ := h
-        simp only [plainGroups, hc, hc2, if_false] at hp
         simp only [caseBibtex, hc, hc2, if_false]
         by_cases ha : d = 0 ∧ isAlphaN c = true
         · simp only [ha, and_self, if_true]
           obtain ⟨rfl, hal⟩ := ha
-          simp only [tokCaseOf, List.all_cons, List.all_nil, Bool.and_true, hal, ne_eq,
+          simp only [tokCaseFrom, List.all_cons, List.all_nil, Bool.and_true, hal, ne_eq,
             List.cons_ne_self, not_false_eq_true, and_self, if_true, charCase]
-        · simp only [ha, if_false, Bool.and_eq_true, Bool.not_eq_true', decide_eq_false_iff_not] at hp
-          simp only [ha, if_false]
-          rw [tokCaseOf_skip ?_ ?_]
-          · exact ih _ _ ht hp.2
+        · simp only [ha, if_false]
+          have hflag : decide ([c] = ['{'] ∧ d = 1) = false := by simp [hc]
+          rw [tokCaseFrom_skip ?_ ?_, hflag]
+          · exact ih _ _ _ ht (by simp)
           · intro hh
             exact ha ⟨hh.1, by simpa using hh.2.2⟩
           · intro hh
-            apply hp.1
-            refine ⟨hh.1, ?_⟩
-            simpa [startsWithBackslash] using hh.2
+            have hcb : c = '\\' := by simpa [startsWithBackslash] using hh.2.1
+            exact hb hh.2.2 (by simp [hcb])
 
-/-- on a token the scanner accepts, without a backslash at brace level 1 of an ordinary group, the
-rule of `Spec.tokenCase` is the scanner-free rule -/
-theorem tokenCase_eq_bibtex {tok : Str} {toks : List Tok} (hs : scan tok = some toks)
-    (hp : plainGroups 0 tok = true) : tokenCase tok = tokenCaseBibtex tok := by
+/-- on EVERY token the scanner accepts the rule of `Spec.tokenCase` is the scanner-free rule -/
+theorem tokenCase_eq_bibtex {tok : Str} {toks : List Tok} (hs : scan tok = some toks) :
+    tokenCase tok = tokenCaseBibtex tok := by
   unfold tokenCase tokenCaseBibtex
   rw [hs]
   simp only []
-  rw [tokCaseOf_scanM_norm tok 0 toks hs hp]
+  rw [tokCaseOf, tokCaseFrom_scanM_norm tok 0 toks false hs (by simp)]
+
+/-! ### the whole split with the scanner-free case rule -/
+
+theorem findIdx?_congr_mem {α : Type} {p q : α → Bool} : ∀ {l : List α}, (∀ x ∈ l, p x = q x) →
+    l.findIdx? p = l.findIdx? q := by
+  intro l
+  induction l with
+  | nil => intro _; rfl
+  | cons a l ih =>
+    intro h
+    rw [List.findIdx?_cons, List.findIdx?_cons, h a (by simp), ih (fun x hx => h x (by simp [hx]))]
+
+theorem lastIdx_congr_mem {α : Type} {p q : α → Bool} {l : List α} (h : ∀ x ∈ l, p x = q x) :
+    lastIdx p l = lastIdx q l := by
+  unfold lastIdx
+  rw [findIdx?_congr_mem (p := p) (q := q) (l := l.reverse) (fun x hx => h x (by simpa using hx))]
+
+theorem vonLastBy_congr {p q : Str → Bool} {ts : List Str} (h : ∀ x ∈ ts.dropLast, p x = q x) :
+    vonLastBy p ts = vonLastBy q ts := by
+  unfold vonLastBy
+  rw [lastIdx_congr_mem h]
+
+theorem vonLast_eq_by (ts : List Str) : vonLast ts = vonLastBy isLow ts := rfl
+
+theorem split_eq_splitBy (name : Str) : split name = splitBy isLow name := by
+  unfold split splitBy
+  simp only [vonLast_eq_by]
+
+/-- the split depends on the case test only through the case-deciding tokens -/
+theorem splitBy_congr {p q : Str → Bool} {name : Str} (h : ∀ t ∈ caseTokens name, p t = q t) :
+    splitBy p name = splitBy q name := by
+  unfold caseTokens at h
+  unfold splitBy
+  cases hc : splitTex .comma name with
+  | nil => rfl
+  | cons a r =>
+    rw [hc] at h
+    cases r with
+    | nil =>
+      simp only [] at h ⊢
+      rw [findIdx?_congr_mem h]
+      cases hi : (splitTex .space name).findIdx? q with
+      | none => rfl
+      | some i0 =>
+        simp only []
+        rw [vonLastBy_congr (fun x hx => h x (List.mem_of_mem_drop (mem_of_mem_dropLast hx)))]
+    | cons b r' =>
+      cases r' with
+      | nil =>
+        simp only [] at h ⊢
+        rw [vonLastBy_congr h]
+      | cons c r'' =>
+        simp only [] at h ⊢
+        rw [vonLastBy_congr h]
 
 end Pybtex.Names
